@@ -71,9 +71,35 @@ def answer (toks : List String) : String :=
   | ["U", seed, mn, mx, skip, n] =>
     let u := uSkip skip.toNat! (newU (seedOf seed) (hexToFloat mn) (hexToFloat mx))
     fmtFloats "O U" (uDraws n.toNat! u).1
-  | ["UI", seed, mn, mx, skip, n] =>
-    let u := uSkip skip.toNat! (newU (seedOf seed) (hexToFloat mn) (hexToFloat mx))
-    fmtInts "O UI" ((uDraws n.toNat! u).1.map floorInt)
+  | ["UI", seed, mn, mx, skip, n] => Id.run do
+    let mut u := uSkip skip.toNat! (newU (seedOf seed) (hexToFloat mn) (hexToFloat mx))
+    let mut out : Array Int := #[]
+    for _ in [0:n.toNat!] do
+      let (v, u') := u.getIntValue cvF floorInt; u := u'; out := out.push v
+    return fmtInts "O UI" out.toList
+  | ["STI", seed, a, b, n] => Id.run do
+    let lo := a.toInt!
+    let hi := b.toInt!
+    let mut u := newU (seedOf seed) (Float.ofInt lo) (Float.ofInt hi)
+    let mut cnt : Array Nat := Array.replicate (hi - lo).toNat 0
+    let mut outside := 0
+    for _ in [0:n.toNat!] do
+      let (v, u') := u.getIntValue cvF floorInt; u := u'
+      if v ≥ lo ∧ v < hi then cnt := cnt.modify (v - lo).toNat (· + 1) else outside := outside + 1
+    return fmtNats "O STI" (cnt.toList ++ [outside])
+  | ["REF", seed, n] => Id.run do
+    -- words 0-2, 622-625, n-2, n-1 of the gen_rand32 stream, the checksum xor_i w_i*(2i+1), and Uniform(0,1) draw n/2
+    let nn := n.toNat!
+    let mut s := initGenRand (seedOf seed)
+    let mut out : Array Nat := #[]
+    let mut x : UInt32 := 0
+    for i in [0:nn] do
+      let (v, s') := genRand32 s; s := s'
+      x := x ^^^ (v * (2 * i + 1).toUInt32)
+      if i < 3 || (i ≥ 622 && i < 626) || i + 2 ≥ nn then out := out.push v.toNat
+    out := out.push x.toNat
+    let u := uSkip (nn / 2 - 1) (newU (seedOf seed) 0 1)
+    return fmtNats "O REF" out.toList ++ " " ++ floatToHex (u.getValue cvF).1
   | ["G", seed, m, s, skip, n] =>
     let g := (gDraws skip.toNat! (newG (seedOf seed) (hexToFloat m) (hexToFloat s))).2
     fmtFloats "O G" (gDraws n.toNat! g).1
